@@ -322,9 +322,101 @@ Proof.
     exact Htail.
 Qed.
 
+(** ** Remainder words *)
+Definition disjointb (a2 a1 : N) : bool :=
+  forallb (fun x => negb (Units.lit_match_with true a1 x)) (Units.ci_class a2).
+
+Lemma disjoint_spec a2 a1 c : disjointb a2 a1 = true -> Units.lit_match_with true a2 c = true ->
+  Units.lit_match_with true a1 c = false.
+Proof.
+  unfold disjointb. intros D H. unfold Units.lit_match_with in H at 1. apply UnitsScan.memN_In in H.
+  rewrite forallb_forall in D. specialize (D c H). apply negb_true_iff in D. exact D.
+Qed.
+
+Fixpoint mismatchb (w1 w2 : str) : bool :=
+  match w1, w2 with
+  | a1 :: t1, a2 :: t2 => disjointb a2 a1 || mismatchb t1 t2
+  | _, _ => false
+  end.
+
+Lemma match_ci_lit_mismatch : forall (w1 w2 m X : str), UnitsTail.ci_word w2 m -> mismatchb w1 w2 = true ->
+  Units.match_ci_lit w1 (m ++ X) = None.
+Proof.
+  induction w1 as [|a1 t1 IH]; intros w2 m X Hw Hm; [discriminate Hm|].
+  destruct Hw as [|a2 c t2 m' Hac Hw']; [discriminate Hm|]. cbn [mismatchb] in Hm. cbn [app Units.match_ci_lit].
+  destruct (Units.lit_match_with true a1 c) eqn:E; [|reflexivity].
+  apply orb_true_iff in Hm as [D|Hm].
+  - rewrite (disjoint_spec a2 a1 c D Hac) in E. discriminate E.
+  - rewrite (IH t2 m' X Hw' Hm). reflexivity.
+Qed.
+
+Lemma word_end_lemma (m X : str) : (exists c, Units.last_opt m = Some c /\ Units.is_word c = true) ->
+  UnitsRef.boundary_after X -> word_end_ok m X = true.
+Proof.
+  intros [c [E W]] Hb. unfold word_end_ok, Units.word_boundary, Units.opt_word. rewrite E, W.
+  destruct X as [|c' t]; [reflexivity|]. cbn [hd_error]. cbn [UnitsRef.boundary_after] in Hb. rewrite Hb. reflexivity.
+Qed.
+
+Lemma rem_classes_word :
+  forallb (fun a => forallb Units.is_word (Units.ci_class a)) (s "remaining") = true /\
+  forallb (fun a => forallb Units.is_word (Units.ci_class a)) (s "remainder") = true /\
+  forallb (fun a => forallb Units.is_word (Units.ci_class a)) (s "rest") = true /\
+  forallb (fun a => forallb Units.is_word (Units.ci_class a)) (s "over") = true.
+Proof. vm_compute. repeat split; reflexivity. Qed.
+
+Lemma rem_mismatches :
+  mismatchb (s "remaining") (s "remainder") = true /\ mismatchb (s "remaining") (s "rest") = true /\
+  mismatchb (s "remainder") (s "rest") = true /\ mismatchb (s "remaining") (s "left") = true /\
+  mismatchb (s "remainder") (s "left") = true /\ mismatchb (s "rest") (s "left") = true.
+Proof. vm_compute. repeat split; reflexivity. Qed.
+
+Lemma last_opt_app_nonempty (x y : str) : y <> [] -> Units.last_opt (x ++ y) = Units.last_opt y.
+Proof. apply UnitsScan.last_opt_app. Qed.
+
+Lemma sc_remainder_word rw (X : str) : rword_ok rw = true -> UnitsRef.boundary_after X ->
+  sc_remainder (rword_str rw ++ X) = Some (rword_str rw, X).
+Proof.
+  intros Hok Hb. destruct rem_classes_word as [C0 [C1 [C2 C3]]]. destruct rem_mismatches as [M01 [M02 [M12 [M0l [M1l M2l]]]]].
+  unfold sc_remainder, first_some, with_boundary.
+  destruct rw as [k m | l w o]; cbn [rword_ok rword_str] in *.
+  - apply andb_true_iff in Hok as [Hk Hw]. pose proof (ci_wordb_word _ _ Hw) as W.
+    destruct k as [|[|[|k]]]; [| | |discriminate Hk]; cbn [rword_target] in *.
+    + rewrite (UnitsTail.match_ci_lit_complete _ _ W X).
+      rewrite (word_end_lemma m X (UnitsTail.ci_word_last_word _ _ W ltac:(discriminate) C0) Hb). reflexivity.
+    + rewrite (match_ci_lit_mismatch _ _ m X W M01).
+      rewrite (UnitsTail.match_ci_lit_complete _ _ W X).
+      rewrite (word_end_lemma m X (UnitsTail.ci_word_last_word _ _ W ltac:(discriminate) C1) Hb). reflexivity.
+    + rewrite (match_ci_lit_mismatch _ _ m X W M02), (match_ci_lit_mismatch _ _ m X W M12).
+      rewrite (UnitsTail.match_ci_lit_complete _ _ W X).
+      rewrite (word_end_lemma m X (UnitsTail.ci_word_last_word _ _ W ltac:(discriminate) C2) Hb). reflexivity.
+  - apply andb_true_iff in Hok as [Hok Ho]. apply andb_true_iff in Hok as [Hl Hw].
+    pose proof (ci_wordb_word _ _ Hl) as Wl. pose proof (ci_wordb_word _ _ Ho) as Wo.
+    repeat rewrite <- app_assoc.
+    rewrite (match_ci_lit_mismatch _ _ l _ Wl M0l), (match_ci_lit_mismatch _ _ l _ Wl M1l), (match_ci_lit_mismatch _ _ l _ Wl M2l).
+    unfold sc_left_over. rewrite (UnitsTail.match_ci_lit_complete _ _ Wl _).
+    assert (Hstop : stops is_hsp (o ++ X)).
+    { inversion Wo as [|a c w' m' Hac _]; subst. cbn [app stops]. exact (o_class_not_hsp c Hac). }
+    rewrite (ParserLex.span_app is_hsp w (o ++ X) Hw Hstop), (UnitsTail.match_ci_lit_complete _ _ Wo X).
+    assert (Hlast : exists c, Units.last_opt (l ++ w ++ o) = Some c /\ Units.is_word c = true).
+    { assert (Hne : o <> []) by (inversion Wo; discriminate).
+      rewrite app_assoc, (last_opt_app_nonempty _ o Hne).
+      exact (UnitsTail.ci_word_last_word _ _ Wo ltac:(discriminate) C3). }
+    rewrite (word_end_lemma _ X Hlast Hb). reflexivity.
+Qed.
+
 (** ** [p_amount] on a printed amount followed by horizontal space and a name *)
-Lemma amt_ok_parts am : amt_ok am = true -> ntext_ok (amt_num am) = true /\ tail_text_ok (amt_tail am) = true.
+Lemma amt_ok_parts am : amt_ok am = true -> lead_ok am = true /\ tail_text_ok (amt_tail am) = true.
 Proof. unfold amt_ok. intro H. apply andb_true_iff in H as [H _]. apply andb_true_iff in H. exact H. Qed.
+
+Lemma oprep_boundary p (w : str) c (r : str) : oprep_ok p = true -> forallb is_hsp w = true -> opener c ->
+  UnitsRef.boundary_after (oprep_str p ++ w ++ c :: r).
+Proof.
+  intros Hp Hw Hc. destruct p as [[w' pw]|]; cbn [oprep_str].
+  - cbn [oprep_ok] in Hp. apply andb_true_iff in Hp as [Hp _]. apply andb_true_iff in Hp as [Hw' Hne].
+    destruct w' as [|h w'']; [discriminate Hne|]. cbn [app UnitsRef.boundary_after]. cbn [hsp_run forallb] in Hw'.
+    apply andb_true_iff in Hw' as [Hh' _]. exact (not_word_hsp h Hh').
+  - cbn [app]. exact (boundary_hsp_opener w c r Hw Hc).
+Qed.
 
 Lemma amount_roundtrip am (w : str) c (r : str) o b fuel :
   amt_ok am = true -> forallb is_hsp w = true -> opener c ->
@@ -340,7 +432,13 @@ Proof.
   assert (Hc42 : c <> 42) by (destruct Hc as [->|[->| ->]]; discriminate).
   destruct (amt_ok_parts am Hok) as [Hnum _]. unfold amt_ok in Hok. apply andb_true_iff in Hok as [_ Hok].
   unfold print_amt.
-  destruct am as [t | t sp n v p | t w0 pw | t w0 p | t w0]; cbn [amt_num amt_tail amt_val] in *.
+  destruct am as [rw p | t | t sp n v p | t w0 pw | t w0 p | t w0]; cbn [amt_lead lead_ok amt_num amt_tail amt_val] in *.
+  - (* remainder word [preposition] *)
+    apply andb_true_iff in Hnum as [Hrw _].
+    unfold p_amount, p_proportion. cbn [rest]. repeat rewrite <- app_assoc.
+    rewrite (sc_remainder_word rw _ Hrw (oprep_boundary p w c r Hok Hw Hc)). unfold adv_pair, adv. cbn [rest off bad].
+    rewrite (oprep_roundtrip p w c r Hok Hw Hc). cbn [fst snd].
+    f_equal. f_equal. repeat rewrite len_app. lia.
   - (* unit-less quantity *)
     rewrite app_nil_r.
     pose proof (num_follow_hsp_then t w c r Hw Hch Hcd Hc46 Hc47) as Hf.
